@@ -6,7 +6,10 @@
 //       | 3 callback installed, writes nothing, logs
 //   BOOL  ct fr pc rs cb dz seed <S> <O> <C>            Clipper64
 //   BOOLD prec ct fr pc rs cb dz seed <S> <O> <C>       ClipperD (coordinates read with strtod)
+//   BOOLX  form hist <BOOL arguments>  |  BOOLDX form hist <BOOLD arguments>   every Execute overload (paths / polytree, with and
+//        without the open-paths result) and callback histories on one object, see run_hist below; same output format
 //   OFFS  jt et ml at delta pc rs cb seed <paths>       ClipperOffset::AddPaths + Execute(delta)
+//   OFFSX hist <OFFS arguments>                         callback set / removed / set late between two Executes of one object
 //   RECT l t r b <paths> | RECTL l t r b <paths>        RectClip / RectClipLines
 //   RECTD / RECTLD prec l t r b <paths>                 double overloads
 // z build only (kernel ties):
@@ -68,10 +71,117 @@ struct LogD { std::ostringstream s; size_t n = 0; uint64_t seed = 0; int cb = 0;
     ++n; } };
 #endif
 
+#ifndef USINGZ
+struct Log64 { uint64_t seed = 0; int cb = 0; }; struct LogD { uint64_t seed = 0; int cb = 0; };
+#endif
+struct X64 { typedef Clipper64 CL; typedef Paths64 PS; typedef PolyTree64 TR; typedef Point64 PT; typedef Log64 LG; };
+struct XD { typedef ClipperD CL; typedef PathsD PS; typedef PolyTreeD TR; typedef PointD PT; typedef LogD LG; };
+template <typename PP, typename PS> static void flat(const PP& pp, PS& out) {   // preorder: polygon, then its children
+  for (size_t i = 0; i < pp.Count(); ++i) { out.push_back(pp.Child(i)->Polygon()); flat(*pp.Child(i), out); }
+}
+// every entry point of a clipper that can produce Z, and callback histories on ONE object.
+//   form: 0 Execute(ct,fr,closed) | 1 Execute(ct,fr,closed,open) | 2 Execute(ct,fr,tree) | 3 Execute(ct,fr,tree,open)
+//         (a tree is printed flattened in preorder)
+//   hist: 0 [callback set if cb] Execute(form)
+//         1 [callback set if cb] Execute(the other family: paths<->tree) then Execute(form)
+//         2 callback set, Execute(other family), callback REMOVED (SetZCallback(nullptr)), Execute(form)   -> as without callback
+//         3 no callback, Execute(other family), callback set, Execute(form)
+//   only the last Execute is printed / logged
+template <typename X> static bool run_hist(typename X::CL& clp, typename X::LG* lg, int form, int hist, int cb, int ct, int fr,
+                                           typename X::PS& closed, typename X::PS& open) {
+  typedef typename X::PT PT;
+  auto setcb = [&]() {
+#ifdef USINGZ
+    clp.SetZCallback([lg](const PT& a, const PT& b, const PT& c_, const PT& d, PT& p) { (*lg)(a, b, c_, d, p); });
+#endif
+  };
+  auto clrcb = [&]() {
+#ifdef USINGZ
+    clp.SetZCallback(nullptr);
+#endif
+  };
+  auto reset = [&]() {
+#ifdef USINGZ
+    lg->s.str(""); lg->n = 0;
+#endif
+  };
+  auto exec = [&](int f) -> bool {
+    closed.clear(); open.clear();
+    if (f == 0) return clp.Execute((ClipType)ct, (FillRule)fr, closed);
+    if (f == 1) return clp.Execute((ClipType)ct, (FillRule)fr, closed, open);
+    typename X::TR tree; bool ok;
+    if (f == 2) ok = clp.Execute((ClipType)ct, (FillRule)fr, tree); else ok = clp.Execute((ClipType)ct, (FillRule)fr, tree, open);
+    flat(tree, closed); return ok;
+  };
+  const int other = form < 2 ? 3 : 1;
+  (void)lg;
+  switch (hist) {
+    case 0: if (cb) setcb(); return exec(form);
+    case 1: if (cb) setcb(); exec(other); reset(); return exec(form);
+    case 2: setcb(); exec(other); clrcb(); reset(); return exec(form);
+    default: exec(other); setcb(); reset(); return exec(form);
+  }
+}
+
 int main() {
   return main_loop([](Toks& t, std::ostream& os) {
     std::string cmd = t.next();
-    if (cmd == "BOOL") {
+    if (cmd == "BOOLX") {
+      int form = t.i32(), hist = t.i32();
+      int ct = t.i32(), fr = t.i32(); bool pc = t.b(), rs = t.b(); int cb = t.i32(); int64_t dz = t.i64(); uint64_t seed = t.u64();
+      Paths64 s = rd_pathsz(t), o = rd_pathsz(t), c = rd_pathsz(t);
+      Clipper64 clp; clp.PreserveCollinear(pc); clp.ReverseSolution(rs);
+      Log64 lg; lg.seed = seed; lg.cb = cb; (void)dz;
+#ifdef USINGZ
+      clp.DefaultZ = dz;
+#endif
+      clp.AddSubject(s); clp.AddOpenSubject(o); clp.AddClip(c);
+      Paths64 closed, open; bool ok = run_hist<X64>(clp, &lg, form, hist, cb, ct, fr, closed, open);
+      os << (ok ? "ok " : "fail "); put(os, closed); os << ' '; put(os, open);
+#ifdef USINGZ
+      os << " Z"; put_z(os, closed); put_z(os, open); os << " L " << lg.n << lg.s.str();
+#endif
+    } else if (cmd == "BOOLDX") {
+      int form = t.i32(), hist = t.i32();
+      int prec = t.i32(); int ct = t.i32(), fr = t.i32(); bool pc = t.b(), rs = t.b(); int cb = t.i32(); int64_t dz = t.i64(); uint64_t seed = t.u64();
+      PathsD s = rd_pathsdz(t), o = rd_pathsdz(t), c = rd_pathsdz(t);
+      ClipperD clp(prec); clp.PreserveCollinear(pc); clp.ReverseSolution(rs);
+      LogD lg; lg.seed = seed; lg.cb = cb; (void)dz;
+#ifdef USINGZ
+      clp.DefaultZ = dz;
+#endif
+      clp.AddSubject(s); clp.AddOpenSubject(o); clp.AddClip(c);
+      PathsD closed, open; bool ok = run_hist<XD>(clp, &lg, form, hist, cb, ct, fr, closed, open);
+      os << (ok ? "ok " : "fail ") << hexd(clp.scale_) << ' '; put(os, closed); os << ' '; put(os, open);
+#ifdef USINGZ
+      os << " Z"; put_z(os, closed); put_z(os, open); os << " L " << lg.n << lg.s.str();
+#endif
+    } else if (cmd == "OFFSX") {
+      // one ClipperOffset object: hist 0 [callback if cb] Execute | 1 callback set, Execute, callback removed, Execute | 2 no callback, Execute, callback set, Execute
+      int hist = t.i32();
+      int jt = t.i32(), et = t.i32(); double ml = t.dbl(), at = t.dbl(), delta = t.dbl(); bool pc = t.b(), rs = t.b(); int cb = t.i32(); uint64_t seed = t.u64();
+      Paths64 ps = rd_pathsz(t);
+      ClipperOffset co(ml, at, pc, rs);
+      Log64 lg; lg.seed = seed; lg.cb = cb;
+      auto setcb = [&]() {
+#ifdef USINGZ
+        co.SetZCallback([&](const Point64& a, const Point64& b, const Point64& c_, const Point64& d, Point64& p) { lg(a, b, c_, d, p); });
+#endif
+      };
+      co.AddPaths(ps, (JoinType)jt, (EndType)et);
+      Paths64 sol;
+      if (hist == 0) { if (cb) setcb(); co.Execute(delta, sol); }
+      else if (hist == 1) { setcb(); co.Execute(delta, sol);
+#ifdef USINGZ
+        co.SetZCallback(nullptr); lg.s.str(""); lg.n = 0;
+#endif
+        sol.clear(); co.Execute(delta, sol); }
+      else { co.Execute(delta, sol); setcb(); sol.clear(); co.Execute(delta, sol); }
+      os << "ok " << co.ErrorCode() << ' '; put(os, sol);
+#ifdef USINGZ
+      os << " Z"; put_z(os, sol); os << " L " << lg.n << lg.s.str();
+#endif
+    } else if (cmd == "BOOL") {
       int ct = t.i32(), fr = t.i32(); bool pc = t.b(), rs = t.b(); int cb = t.i32(); int64_t dz = t.i64(); uint64_t seed = t.u64();
       Paths64 s = rd_pathsz(t), o = rd_pathsz(t), c = rd_pathsz(t);
       Clipper64 clp; clp.PreserveCollinear(pc); clp.ReverseSolution(rs);
